@@ -17,7 +17,7 @@ pub fn prop() -> Prop {
 fn spec() -> Spec {
     Spec {
         kinds: vec![Kind { name: "fk", quick: 2_000_000, thorough: 60_000_000, serial: false }, Kind { name: "shared_history", quick: 100_000, thorough: 3_000_000, serial: false }],
-        rule: "each case = one generated robot (all geometry classes incl. degenerate, 64 sign patterns round-robin, three offset classes, dof 5/6) x one joint vector (classes [-pi,pi], [-2pi,2pi], 1e3 turns, 1e6 turns); the library's forward() and forward_with_joint_poses() are compared with the plain-array link chain; non-trivial = all results finite; distinct = hash(robot, q) Workload additions: joint classes exact multiples of a right angle and joints resting at exactly 0.0 / -0.0 / denormals; solvers built through either constructor; kind shared_history = robots sharing link lengths evaluated at the bit-identical joint vector alternately on one thread.",
+        rule: "each case = one generated robot (all geometry classes incl. degenerate, 64 sign patterns round-robin, three offset classes, dof 5/6) x one joint vector (classes [-pi,pi], [-2pi,2pi], 1e3 turns, 1e6 turns); the library's forward() and forward_with_joint_poses() are compared with the plain-array link chain; non-trivial = all results finite; distinct = hash(robot, q) Workload additions: joint classes exact multiples of a right angle and joints resting at exactly 0.0 / -0.0 / denormals; solvers built through either constructor; kind shared_history = robots sharing link lengths evaluated at the bit-identical joint vector alternately on one thread. Rounds 7-9: calibration-sized lengths below 10 micrometres, c3 exactly zero, scaled robots.",
         assumptions: vec![
             "reference chain Tz(c1)Rz(t1).T(a1,b,0)Ry(t2).Tz(c2)Ry(t3).Tx(a2)Rz(t4).Tz(c3)Ry(t5).Tz(c4)Rz(t6), t=sign*q-offset, is the OPW model",
             "tolerance (1e-11 + 2e-15*max|q|)*(1+reach) m and (1e-11 + 2e-15*max|q|) rad absorbs the different floating point evaluation orders (angle sums rounded at ulp(|q|))",
